@@ -8,6 +8,8 @@
 #include <string.h>
 #include <unistd.h>
 #include <sys/select.h>
+#include <sys/socket.h>
+#include <sys/types.h>
 #include <sys/syscall.h>
 #include <security/pam_modules.h>
 #include <security/pam_ext.h>
@@ -61,6 +63,15 @@ int pam_prompt(pam_handle_t *pamh, int style, char **response, const char *fmt, 
   if (c_conv_rc != PAM_SUCCESS) return c_conv_rc;
   *response = c_convpw ? strdup(c_convpw) : NULL;
   return PAM_SUCCESS;
+}
+
+/* interposes libc's send(): with PAMDRV_SEND_MAX=n every call transfers at most n bytes (a short write, as a signal or a
+ * nearly full socket buffer produces); the module must carry on from where the kernel stopped. */
+ssize_t send(int fd, const void *buf, size_t len, int flags) {
+  static long cap = -1;
+  if (cap < 0) { const char *e = getenv("PAMDRV_SEND_MAX"); cap = e ? atol(e) : 0; }
+  if (cap > 0 && len > (size_t)cap) len = (size_t)cap;
+  return syscall(SYS_sendto, fd, buf, len, flags, NULL, 0);
 }
 
 /* interposes libc's select() for the module linked into this executable */
